@@ -1289,6 +1289,10 @@ const LX_SINGLE: &[&str] = &[
     "#if\n#endif\n", "#if (\n#endif\n", "#if 1 +\n#endif\n", "#define F(x) x\nstatic int v = F(1;\n", "#define F(x) x\nstatic int v = F(1, 2);\n",
     "#define F() 1\nstatic int v = F(2);\n", "#define C a ##\nstatic int v = C;\n", "#define C ## a\nstatic int v = C;\n", "#if 1\n", "#ifdef X\n#else\n#else\n#endif\n",
     "static int v = \"abc;\n", "static int v = \"abc\ndef\";\n", "static int v = 1; /* open\n", "static int v = 1 $ 2;\n", "static int v = 1.5e;\n", "static int v = 0x;\n",
+    "#if defined\n#endif\n", "#if defined(A, B)\n#endif\n", "#if defined(1)\n#endif\n", "#1 2\n", "Buffer<float> g : register(x0);\n",
+    "struct S { int m = 1; };\n", "static SamplerState g = StaticSampler { Filter = MIN_MAG_MIP_LINEAR; };\n",
+    "struct H { float x; };\nfloat hm() { H h; return h.missing; }\n", "void g1(int p) { }\nvoid g2() { }\nvoid g3() { g1(g2); }\n",
+    "void g4() { int l : register(t0); }\n",
 ];
 
 fn own_family_names() -> Vec<String> {
